@@ -46,3 +46,8 @@ Definition writes_confined (dst : option slice) (n0 : nat) (ws : list (nat * nat
 (* a caller cell was written *)
 Definition caller_write (dst : option slice) (n0 : nat) (ws : list (nat * nat)) : Prop :=
   exists a i, In (a, i) ws /\ a < n0 /\ may_write dst a i = false.
+
+(* executable form of [writes_confined], for cells the harness SAW a call try to write (the
+   arguments lie in read-only memory; an attempted store faults and is reported) *)
+Definition confined_oracle (dst : option slice) (n0 : nat) (ws : list (nat * nat)) : bool :=
+  forallb (fun p => (n0 <=? fst p) || may_write dst (fst p) (snd p)) ws.
